@@ -112,7 +112,9 @@ func newClientDialer(addr string, mode ClientMode, dialer *net.Dialer, logger lo
 	c.conns.Store(newClientConns())
 
 	if mode == ClientMode_AutoConnect {
+		c.mu.Lock()
 		c.connect()
+		c.mu.Unlock()
 	}
 	return c
 }
